@@ -1,10 +1,13 @@
 #!/bin/bash
 # create a scratch worktree of /repo HEAD with a hard-linked copy of /repo's prebuilt target dir
-# (build-script output directories are written in place by a re-run build script, so the small ones are really copied: a hard link
-# would let the worktree rewrite /repo/target's copy, e.g. ckb-resource's bundled.rs with the worktree's paths)
+# * every tracked file gets the mtime of its twin in /repo: cargo's freshness test is the source mtime against the fingerprint, and a fresh
+#   checkout (mtime = now) makes cargo rebuild all 75 workspace members in the worktree (20-30 GB of unshared artifacts per worktree);
+# * build-script output directories are written in place by a re-run build script, so the small ones are really copied: a hard link
+#   would let the worktree rewrite /repo/target's copy (ckb-resource's bundled.rs once ended up with a deleted worktree's paths).
 set -e
 D=$1
 git -C /repo worktree add -q "$D" HEAD
+( cd /repo && git ls-files -z | while IFS= read -r -d '' f; do [ -e "$D/$f" ] && touch -h -r "/repo/$f" "$D/$f"; done )
 mkdir -p "$D/target/debug"
 for s in deps .fingerprint; do cp -al /repo/target/debug/$s "$D/target/debug/$s"; done
 mkdir -p "$D/target/debug/build"
